@@ -128,6 +128,7 @@ type E2EResult struct {
 	Live        []bool
 	IndexTagged [][]int
 	Dangling    []string
+	DanglingOf  []int // per subject: index manifests once stored under its tag, still in the registry, not current
 	API         []Listing
 	Deadlock    bool
 }
@@ -441,6 +442,7 @@ func runE2EInner(c *E2ECase, res *E2EResult) {
 	for _, k := range c.PreLive {
 		reg.PutManifest(repoName, mans[k].desc.MediaType, mans[k].content)
 	}
+	everIdx := make([][]digest.Digest, c.NSubjects)
 	for s, l := range c.PreIndex {
 		if l == nil {
 			continue
@@ -466,6 +468,7 @@ func runE2EInner(c *E2ECase, res *E2EResult) {
 		body, _ := json.Marshal(idx)
 		tg, _ := remote.VerifBuildReferrersTag(subj[s].desc)
 		reg.PutManifest(repoName, ocispec.MediaTypeImageIndex, body, tg)
+		everIdx[s] = append(everIdx[s], digest.FromBytes(body))
 	}
 	var statusMu sync.Mutex
 	statusOf := map[int]int{}
@@ -605,6 +608,9 @@ func runE2EInner(c *E2ECase, res *E2EResult) {
 			ev := Event{N: len(res.Events), Round: rd, Class: cl, Subject: s, Fail: fail}
 			fmt.Sscanf(pick.ex.Op, "%d", &ev.Op)
 			if cl == "idx-put" {
+				if !fail {
+					everIdx[s] = append(everIdx[s], digest.FromBytes(pick.ex.Body))
+				}
 				var idx ocispec.Index
 				if json.Unmarshal(pick.ex.Body, &idx) == nil {
 					ev.PutList = []int{}
@@ -743,6 +749,19 @@ func runE2EInner(c *E2ECase, res *E2EResult) {
 		}
 	}
 	sort.Strings(res.Dangling)
+	res.DanglingOf = make([]int, c.NSubjects)
+	for s := range everIdx {
+		tgn, _ := remote.VerifBuildReferrersTag(subj[s].desc)
+		seenD := map[digest.Digest]bool{}
+		for _, d := range everIdx[s] {
+			// a manifest that some referrers tag points at is current (possibly for another
+			// subject: identical indexes are one manifest), not dangling
+			if _, ok := stored[d]; ok && !seenD[d] && tg[tgn] != d && !tagged[d] {
+				res.DanglingOf[s]++
+			}
+			seenD[d] = true
+		}
+	}
 
 	// the same live manifests on a registry with the Referrers API
 	regB := fakereg14.New(fakereg14.ReferrersAPI)
